@@ -321,6 +321,24 @@ def check_faults(ctx, index):
                 assert 'text:c="2"' in xml
                 storage.write_ods_raw(path, xml.replace('text:c="2"', 'text:c="%s"' % attr).encode("utf-8"))
                 expect_format_error(ctx, {"fault": "space-count", "value": attr}, path, 1, "space-count:%s" % kind_of(attr))
+        # text:c is a count that may be 0 (ODF: nonNegativeInteger): no blank at all
+        for encoded, want_text in (('<text:s text:c="0"/>', "a b"), ('<text:s text:c="00"/>', "a b"), ('<text:s text:c="+0"/>', "a b")):
+            xml = storage.ods_content([[["a   b"]]], ("s",))
+            storage.write_ods_raw(path, xml.replace('<text:s text:c="2"/>', encoded).encode("utf-8"))
+            zero_case = {"fault": None, "what": "text:s with a count of zero", "spelled": encoded}
+            ctx.case(zero_case, True)
+            ctx.count("space-count-zero.judged")
+            from cutplace import errors as _e0, rowio as _r0
+
+            try:
+                got = list(_r0.ods_rows(path, 1))
+            except Exception as error:  # noqa
+                if encoded.endswith('"+0"/>') and isinstance(error, _e0.DataFormatError):
+                    continue  # (a sign is no part of a nonNegativeInteger's canonical form; refusing it is in order)
+                ctx.violation("C15:space-count-zero-refused", zero_case, "a sheet whose text:s declares a count of 0 was refused", expected=[[want_text]], observed=error)
+                continue
+            if got != [[want_text]]:
+                ctx.violation("C15:space-count-zero", zero_case, "text:s with a count of 0 does not stand for no blank", expected=[[want_text]], observed=got)
         # a sheet that is nothing but its element (no column, no row): the k-th sheet all the same, with no rows
         xml = storage.ods_content([[["a"]], [], [["z"]]], ())
         bare = re.sub(r'(<table:table table:name="Sheet2">).*?(</table:table>)', r'<table:table table:name="Sheet2"/>', xml, count=1, flags=re.S)
